@@ -217,10 +217,10 @@ def check_output(zone, start_ns, n, tzname, stamps, vals, extra_sig=None):
     sig0 = dict(extra_sig or {}, zone_kind=zk)
     viol = []
 
-    def bad(clause, **detail):
-        d = {"zone": zone, "local_start": iso(start_ns), "length": n}
+    def bad(clause, sig_extra=None, **detail):
+        d = {"zone": zone, "local_start": iso(start_ns), "length": n, "window_kind": zk}
         d.update(detail)
-        viol.append({"sig": dict(sig0, clause=clause), "detail": d})
+        viol.append({"sig": dict(sig0, clause=clause, **(sig_extra or {})), "detail": d})
 
     rendered = [[iso(u), v] for u, v in zip(stamps, vals)]
     total_in = (1 << n) - 1
@@ -229,8 +229,10 @@ def check_output(zone, start_ns, n, tzname, stamps, vals, extra_sig=None):
     if tzname != "UTC":
         bad("index-utc", tz=tzname)
     if any(b <= a for a, b in zip(stamps, stamps[1:])):
-        bad("index-strictly-increasing", output=rendered,
-            duplicates=len(stamps) - len(set(stamps)))
+        # class-level trigger: were there duplicate stamps, and did the conversion merge anything at all?
+        merged = any(v == int(v) and int(v) & (int(v) - 1) for v in vals)
+        bad("index-strictly-increasing", {"duplicate_stamps": "yes" if len(set(stamps)) < len(stamps) else "no",
+                                          "merged_rows": "some" if merged else "none"}, output=rendered)
     # decode every output value into the inputs merged into it
     where = {}
     exact = all(v >= 0 and v == int(v) and v <= total_in for v in vals)
@@ -265,7 +267,12 @@ def check_output(zone, start_ns, n, tzname, stamps, vals, extra_sig=None):
             if not ok:
                 clause = {"exists-once": "placement-existing-hour", "repeated": "placement-repeated-hour",
                           "skipped": "placement-skipped-hour"}[cls]
-                bad(clause, input_index=k, local_hour=iso(local), placed_at_utc=iso(u),
+                extra = None
+                if cls == "skipped":   # the jump that swallowed this hour decides the class, not the whole window
+                    gi = zt.gaps_containing(local)
+                    extra = {"zone_kind": "+".join(sorted({zt.kind(i) for i in gi})),
+                             "side": "before-transition" if u < min(ex_set) else "after-transition"}
+                bad(clause, extra, input_index=k, local_hour=iso(local), placed_at_utc=iso(u),
                     admissible_utc=[iso(x) for x in ex_set] +
                     (["or an hourly instant within 1 h of the transition"] if near is not None else []),
                     hours_from_nearest_admissible=min(abs(u - x) for x in ex_set) / HOUR, output=rendered)
